@@ -331,6 +331,64 @@ func c14Lookup(c *Ctx, p *Prog) {
 	if nfail == 0 {
 		c.Fail("C14-R5", "LookupTerminfo:failure-return", p.pos(fn.Pos()), "no not-found return")
 	}
+	// variant names: the base is the name with the suffix cut off its END, under HasSuffix with
+	// that very suffix (a suffix found elsewhere in the name does not make a variant)
+	{
+		n, bad := 0, ""
+		for _, f := range p.modFns {
+			if f.Pkg != p.Terminfo {
+				continue
+			}
+			eachInstr(f, func(in ssa.Instruction) {
+				cc := callCommon(in)
+				if cc == nil || len(cc.Args) != 2 {
+					return
+				}
+				nm := calleeName(cc)
+				if nm == "strings.LastIndex" || nm == "strings.Index" || nm == "strings.Contains" {
+					if lit, ok := constString(cc.Args[1]); ok && (strings.HasSuffix(lit, "color") || strings.HasPrefix(lit, "-")) {
+						bad += f.Name() + " looks for " + lit + " anywhere in the name (" + nm + "); "
+					}
+				}
+			})
+		}
+		eachInstr(fn, func(in ssa.Instruction) {
+			sl, ok := in.(*ssa.Slice)
+			if !ok || sl.High == nil || sl.Low != nil {
+				return
+			}
+			if prm, isP := derefCell(sl.X).(*ssa.Parameter); !isP || prm != fn.Params[0] {
+				return
+			}
+			n++
+			sub, isSub := sl.High.(*ssa.BinOp)
+			okCut := false
+			var k int64
+			if isSub && sub.Op == token.SUB {
+				if call, isCall := sub.X.(*ssa.Call); isCall {
+					if b, isB := call.Call.Value.(*ssa.Builtin); isB && b.Name() == "len" {
+						if kk, isK := constInt(sub.Y); isK {
+							okCut, k = true, kk
+						}
+					}
+				}
+			}
+			anchored := false
+			if okCut {
+				for _, g := range rawGuardsAt(in.Block()) {
+					if gc, isCall := g.Cond.(*ssa.Call); isCall && g.Positive && calleeName(&gc.Call) == "strings.HasSuffix" {
+						if lit, isLit := constString(gc.Call.Args[1]); isLit && int64(len(lit)) == k {
+							anchored = true
+						}
+					}
+				}
+			}
+			if !okCut || !anchored {
+				bad += "the base name at " + p.pos(in.Pos()) + " is not name[:len(name)-len(suffix)] under HasSuffix(name, suffix); "
+			}
+		})
+		c.Check(bad == "" && n >= 2, "C14-R5", "LookupTerminfo:variant-suffix-anchored", p.pos(fn.Pos()), fmt.Sprintf("%d base names cut off the end of the name under the matching HasSuffix test %s", n, bad))
+	}
 	// synthesised strings
 	synth := map[string]string{}
 	eachInstr(fn, func(in ssa.Instruction) {
